@@ -296,6 +296,10 @@ type world struct {
 	diff     ldiff.Diff
 	dm       *headsync.DiffManager
 	obs      *queueObserver
+	hs       headsync.HeadSync // the real component, next to dm
+	sentinel int
+	// onFillDiff, when set, runs once inside the real head sync's FillDiff after the index was filled
+	onFillDiff func()
 	tm       *fakeTreeManager
 	sc       *fakeSyncClient
 	settings settings.SettingsObject
@@ -498,10 +502,14 @@ func (w *world) startLocal() error {
 	w.dm = headsync.NewDiffManager(w.diff, w.local.st, &fakeSyncAcl{acl: w.local.acl}, logger.NewNamed("verif"), ctx, w.delState)
 	w.obs = &queueObserver{dm: w.dm}
 	w.local.st.HeadStorage().AddObserver(w.obs)
-	return w.dm.FillDiff(ctx)
+	if err := w.dm.FillDiff(ctx); err != nil {
+		return err
+	}
+	return w.startHeadSync()
 }
 
 func (w *world) stopLocal() {
+	w.stopHeadSync()
 	for _, t := range w.live {
 		t.Close()
 	}
